@@ -310,4 +310,220 @@ MUTANTS = [
 		ref = &SFid{}
 	}
 """)]),
+
+ # ---- C11
+ ("c11-no-deferred-cancel", "C11", [("serveconn.go", """	defer func() {
+		for _, active := range tags {
+			active.cancel()
+		}
+	}()
+""", "")]),
+ ("c11-stop-only-on-nil", "C11", [("serveconn.go", """	err := c.serve()
+	return handler.Stop(err)""", """	err := c.serve()
+	if err == ErrClosed {
+		return err
+	}
+	return handler.Stop(err)""")]),
+ ("c11-read-exit-no-close", "C11", [("serveconn.go", """			c.CloseWithError(fmt.Errorf("error reading fcall: %v", err))
+			return""", """			log.Printf("error reading fcall: %v", err)
+			return""")]),
+ ("c11-flush-select-no-closed", "C11", [("serveconn.go", """				case responses <- resp:
+					// bypass tag management in completed.
+				case <-c.ctx.Done():
+					return c.ctx.Err()
+				case <-c.closed:
+					return c.err
+				}""", """				case responses <- resp:
+					// bypass tag management in completed.
+				case <-c.ctx.Done():
+					return c.ctx.Err()
+				}""")]),
+ ("c11-handler-send-no-closed", "C11", [("serveconn.go", """					case <-ctx.Done():
+						return
+					case <-c.closed:
+						return
+					}""", """					case <-ctx.Done():
+						return
+					}""")]),
+ ("c11-ctx-not-derived", "C11", [("serveconn.go", "ctx, cancel := context.WithCancel(c.ctx)", "ctx, cancel := context.WithCancel(context.Background())")]),
+ ("c11-go-before-table", "C11", [("serveconn.go", """				tags[req.Tag] = &activeRequest{
+					ctx:     ctx,
+					request: req,
+					cancel:  cancel,
+				}
+""", """				active := &activeRequest{
+					ctx:     ctx,
+					request: req,
+					cancel:  cancel,
+				}
+				defer func() { tags[req.Tag] = active }()
+""")]),
+ ("c11-close-without-once", "C11", [("serveconn.go", """	c.once.Do(func() {
+		if err == nil {
+			err = ErrClosed
+		}
+
+		c.err = err
+		close(c.closed)
+	})
+""", """	if err == nil {
+		err = ErrClosed
+	}
+	if c.err == nil {
+		c.err = err
+		close(c.closed)
+	}
+""")]),
+ ("c11-write-plain-recv", "C11", [("serveconn.go", """		case <-c.ctx.Done():
+			c.CloseWithError(c.ctx.Err())
+			return
+		case <-c.closed:
+			return
+		}
+	}
+}
+
+func (c *conn) Close() error {""", """		case <-c.ctx.Done():
+			c.CloseWithError(c.ctx.Err())
+			return
+		}
+	}
+}
+
+func (c *conn) Close() error {""")]),
+ ("c11-handle-negative-count", "C11", [("ssesssion.go", """			if count < 0 {
+				count = 0
+			}
+""", "")]),
+ ("c11-panic-in-dispatch", "C11", [("ssesssion.go", """	default:
+		return nil, ErrUnknownMsg""", """	default:
+		panic("unknown message")""")]),
+ ("c11-remove-deletes-before-cancel", "C11", [("serveconn.go", """		active.cancel() // propagate cancellation to callees
+		delete(tags, t)""", """		delete(tags, t)
+		_ = active""")]),
+
+ # ---- C04
+ ("c04-strings-ll-uint32", "C04", [("encoding.go", """		case *[]string:
+			var ll uint16
+""", """		case *[]string:
+			var ll uint32
+""")]),
+ ("c04-twstat-elements-2", "C04", [("encoding.go", """				if err := d.decode(elements[0]); err != nil {
+					return err
+				}
+				elements = elements[1:]
+				var ll uint16""", """				if err := d.decode(elements[0]); err != nil {
+					return err
+				}
+				elements = elements[3:]
+				var ll uint16""")]),
+ ("c04-rstat-clause-slices", "C04", [("encoding.go", """				var ll uint16
+				if err := d.decode(&ll); err != nil {
+					return err
+				}
+			case MessageTwstat, *MessageTwstat:
+				if err := d.decode(elements[0]); err != nil {""", """				var ll uint16
+				if err := d.decode(&ll); err != nil {
+					return err
+				}
+				elements = elements[1:]
+			case MessageTwstat, *MessageTwstat:
+				if err := d.decode(elements[0]); err != nil {""")]),
+ ("c04-qids-index-off", "C04", [("encoding.go", """			elements := make([]interface{}, int(ll))
+			*v = make([]Qid, int(ll))
+			for i := range elements {
+				elements[i] = &(*v)[i]
+			}""", """			elements := make([]interface{}, int(ll)+1)
+			*v = make([]Qid, int(ll))
+			for i := range elements {
+				elements[i] = &(*v)[i]
+			}""")]),
+ ("c04-swallow-length-error", "C04", [("encoding.go", """		case *string:
+			var ll uint16
+
+			// implement string[s] encoding
+			if err := d.decode(&ll); err != nil {
+				return err
+			}""", """		case *string:
+			var ll uint16
+
+			// implement string[s] encoding
+			d.decode(&ll)""")]),
+ ("c04-unknown-type-default-msg", "C04", [("messages.go", """	return nil, fmt.Errorf("unknown message type")""", """	_ = fmt.Errorf
+	return nil, nil""")]),
+ ("c04-guard-too-weak", "C04", [("encoding.go", "ok && int64(ll) > int64(lr.Len()) {", "ok && int64(ll) > int64(lr.Len())*1024 {")]),
+ ("c04-decodedir-putuint-before-make", "C04", [("encoding.go", """	p := make([]byte, int(ll)+2) // int: ll+2 would wrap in uint16""", """	p := make([]byte, int(ll)+1) // int: ll+2 would wrap in uint16""")]),
+ ("c04-decoder-over-bufio", "C04", [("encoding.go", """	dec := &decoder{bytes.NewReader(data)}
+	return dec.decode(v)""", """	dec := &decoder{io.LimitReader(bytes.NewReader(data), int64(len(data)))}
+	return dec.decode(v)""")]),
+ ("c04-panic-on-bad-string", "C04", [("encoding.go", """			if n != int(ll) {
+				return fmt.Errorf("unexpected string length")
+			}""", """			if n != int(ll) {
+				panic("unexpected string length")
+			}""")]),
+ # ---- C12
+ ("c12-send-wait-no-closed", "C12", [("transport.go", """	// wait for the response.
+	select {
+	case <-t.closed:
+		return nil, ErrClosed
+	case <-ctx.Done():""", """	// wait for the response.
+	select {
+	case <-ctx.Done():""")]),
+ ("c12-send-dispatch-no-ctx", "C12", [("transport.go", """	select {
+	case <-t.closed:
+		return nil, ErrClosed
+	case <-ctx.Done():
+		return nil, ctx.Err()
+	case t.requests <- req:
+	}""", """	select {
+	case <-t.closed:
+		return nil, ErrClosed
+	case t.requests <- req:
+	}""")]),
+ ("c12-no-deferred-close", "C12", [("transport.go", """	defer func() {
+		close(t.closed)
+	}()
+
+	// the following""", """	// the following""")]),
+ ("c12-reader-no-deferred-close", "C12", [("transport.go", """		defer func() {
+			t.close() // single main loop
+		}()
+""", "")]),
+ ("c12-unbuffered-response", "C12", [("transport.go", "response: make(chan *Fcall, 1),", "response: make(chan *Fcall),")]),
+ ("c12-unchecked-assert", "C12", [("csession.go", """	rauth, ok := resp.(MessageRauth)
+	if !ok {
+		return Qid{}, ErrUnexpectedMsg
+	}
+
+	return rauth.Qid, nil""", """	return resp.(MessageRauth).Qid, nil""")]),
+ ("c12-assert-failure-is-success", "C12", [("csession.go", """	_, ok := resp.(MessageRremove)
+	if !ok {
+		return ErrUnexpectedMsg
+	}""", """	_, ok := resp.(MessageRremove)
+	if !ok {
+		return nil
+	}""")]),
+ ("c12-write-failure-not-reported", "C12", [("transport.go", """				delete(outstanding, fcall.Tag)
+				req.err <- err""", """				delete(outstanding, fcall.Tag)
+				log.Println("p9p: write failed:", err)""")]),
+ ("c12-write-failure-keeps-tag", "C12", [("transport.go", """				delete(outstanding, fcall.Tag)
+				req.err <- err""", """				req.err <- err""")]),
+ ("c12-owner-no-shutdown-case", "C12", [("transport.go", """		case <-t.shutdown:
+			return
+		case <-t.ctx.Done():
+			return
+		}
+	}
+}""", """		case <-t.ctx.Done():
+			return
+		}
+	}
+}""")]),
+ ("c12-reader-send-no-closed", "C12", [("transport.go", """			case <-t.ctx.Done():
+				return
+			case <-t.closed:
+				return
+			case responses <- fcall:""", """			case <-t.ctx.Done():
+				return
+			case responses <- fcall:""")]),
 ]
